@@ -107,6 +107,8 @@ package stackitem
 
 //@ func NewBigInteger
 //@ opt uncovered 1
-//@ requires value != nil
-//@ requires[nopanic] in256(value.v)
+//@ requires[nopanic] value != nil && in256(value.v)
 //@ ensures result == (*BigInteger)(value)
+
+//@ func NewBool
+//@ inline
